@@ -200,11 +200,13 @@ func init() {
 	})
 
 	// ------------------------------------------------------------------ sort
-	reg("sort.Ints", "sorts in place: afterwards non-decreasing (pairwise) and a permutation of the old contents (bijection on the index range); nothing else changes", func(x *Exec, fr *Frame, i *ssa.Call, fn *ssa.Function, args []Val) Val {
+	reg("sort.Ints", "sorts in place: afterwards non-decreasing (pairwise) and a permutation of the old contents (bijection on the index range); nothing else changes. Two derived facts are stated as well: equal old elements end up adjacent, pairwise distinct old elements end up strictly increasing", func(x *Exec, fr *Frame, i *ssa.Call, fn *ssa.Function, args []Val) Val {
 		st := fr.curSt
 		a := args[0]
 		name := "E$int$0"
+		x.emptyRange = sx("<=", a.slen(), "1") // nothing moves in a slice of at most one element
 		x.checkFrameWrite(fr, name, a.base(), a.off(), "sort.Ints permutes its argument")
+		x.emptyRange = ""
 		oldS, newS := x.havocComp(st, name, elemSort(SInt))
 		x.recordStore(name, a.base())
 		x.nfresh++
@@ -212,16 +214,28 @@ func init() {
 		x.emit(fmt.Sprintf("(declare-fun %s (Int) Int)", P))
 		x.emit(fmt.Sprintf("(declare-fun %s (Int) Int)", Q))
 		lo, hi := a.off(), add(a.off(), a.slen())
-		x.emit(sx("assert", fmt.Sprintf("(forall ((r Int)) (! (=> (not (= r %s)) (= (select %s r) (select %s r))) :pattern ((select %s r))))", a.base(), newS, oldS, newS)))
+		n, off, base := a.slen(), a.off(), a.base()
+		at := func(h, k string) string { return sel2(h, base, add(off, k)) }
+		x.emit(sx("assert", fmt.Sprintf("(forall ((r Int)) (! (=> (not (= r %s)) (= (select %s r) (select %s r))) :pattern ((select %s r))))", base, newS, oldS, newS)))
 		x.emit(sx("assert", fmt.Sprintf("(forall ((i Int)) (! (=> (not (and (<= %s i) (< i %s))) (= (select (select %s %s) i) (select (select %s %s) i))) :pattern ((select (select %s %s) i))))",
-			lo, hi, newS, a.base(), oldS, a.base(), newS, a.base())))
-		x.emit(sx("assert", fmt.Sprintf("(forall ((i Int) (j Int)) (! (=> (and (<= %s i) (< i j) (< j %s)) (<= (select (select %s %s) i) (select (select %s %s) j))) :pattern ((select (select %s %s) i) (select (select %s %s) j))))",
-			lo, hi, newS, a.base(), newS, a.base(), newS, a.base(), newS, a.base())))
-		x.emit(sx("assert", fmt.Sprintf("(forall ((i Int)) (! (=> (and (<= %s i) (< i %s)) (and (<= %s (%s i)) (< (%s i) %s) (= (select (select %s %s) i) (select (select %s %s) (%s i))) (= (%s (%s i)) i))) :pattern ((select (select %s %s) i))))",
-			lo, hi, lo, P, P, hi, newS, a.base(), oldS, a.base(), P, Q, P, newS, a.base())))
-		x.emit(sx("assert", fmt.Sprintf("(forall ((j Int)) (! (=> (and (<= %s j) (< j %s)) (and (<= %s (%s j)) (< (%s j) %s) (= (select (select %s %s) (%s j)) (select (select %s %s) j)) (= (%s (%s j)) j))) :pattern ((select (select %s %s) j))))",
-			lo, hi, lo, Q, Q, hi, newS, a.base(), Q, oldS, a.base(), P, Q, oldS, a.base())))
-		return Val{}
+			lo, hi, newS, base, oldS, base, newS, base)))
+		// relative indices (off + k), the form every contract clause uses
+		x.emit(sx("assert", fmt.Sprintf("(forall ((a Int)) (forall ((b Int)) (=> (and (<= 0 a) (< a b) (< b %s)) (<= %s %s))))", n, at(newS, "a"), at(newS, "b"))))
+		x.emit(sx("assert", fmt.Sprintf("(forall ((k Int)) (! (=> (and (<= 0 k) (< k %s)) (and (<= 0 (%s k)) (< (%s k) %s) (= %s %s) (= (%s (%s k)) k))) :pattern (%s)))",
+			n, P, P, n, at(newS, "k"), at(oldS, "("+P+" k)"), Q, P, at(newS, "k"))))
+		x.emit(sx("assert", fmt.Sprintf("(forall ((j Int)) (! (=> (and (<= 0 j) (< j %s)) (and (<= 0 (%s j)) (< (%s j) %s) (= %s %s) (= (%s (%s j)) j))) :pattern (%s)))",
+			n, Q, Q, n, at(newS, "("+Q+" j)"), at(oldS, "j"), P, Q, at(oldS, "j"))))
+		// derived facts (consequences of sortedness and of the bijection, stated for the provers):
+		// two equal old elements end up adjacent; pairwise distinct old elements end up strictly increasing
+		x.emit(sx("assert", fmt.Sprintf("(forall ((a Int)) (forall ((b Int)) (=> (and (<= 0 a) (< a b) (< b %s) (= %s %s)) (exists ((k Int)) (and (<= 0 k) (< (+ k 1) %s) (= %s %s))))))",
+			n, at(oldS, "a"), at(oldS, "b"), n, at(newS, "k"), at(newS, "(+ k 1)"))))
+		x.emit(sx("assert", fmt.Sprintf("(=> (forall ((a Int)) (forall ((b Int)) (=> (and (<= 0 a) (< a b) (< b %s)) (not (= %s %s))))) (forall ((a Int)) (forall ((b Int)) (=> (and (<= 0 a) (< a b) (< b %s)) (< %s %s)))))",
+			n, at(oldS, "a"), at(oldS, "b"), n, at(newS, "a"), at(newS, "b"))))
+		// ... and the set of elements is the same (membership in the sense of the prelude's memb, unnormalised)
+		oa, na := sel(oldS, base), sel(newS, base)
+		x.emit(sx("assert", fmt.Sprintf("(forall ((v Int)) (! (= (memb %s %s %s 0 v) (memb %s %s %s 0 v)) :pattern ((memb %s %s %s 0 v)) :pattern ((memb %s %s %s 0 v))))",
+			na, off, n, oa, off, n, na, off, n, oa, off, n)))
+		return Val{T: types.NewTuple()}
 	})
 	// ------------------------------------------------------------------ encoding/binary, math
 	le := func(nbytes int) intrinsic {
